@@ -1,5 +1,6 @@
 use crate::engine::{PropRun, RunCfg};
 
+pub mod c12;
 pub mod c16;
 
 /// run a property; returns process exit code
@@ -7,6 +8,7 @@ pub fn run(cfg: RunCfg, verif_dir: &str) -> i32 {
     let id = cfg.property.clone();
     let mut run = PropRun::new(cfg, verif_dir);
     match id.as_str() {
+        "C12" => c12::run(&mut run),
         "C16" => c16::run(&mut run),
         _ => {
             eprintln!("unknown property {id}");
@@ -19,6 +21,7 @@ pub fn run(cfg: RunCfg, verif_dir: &str) -> i32 {
 /// replay a failure file; Ok(()) if the case passes now
 pub fn replay(id: &str, suite: &str, path: &str) -> Result<(), String> {
     match id {
+        "C12" => c12::replay(suite, path),
         "C16" => c16::replay(suite, path),
         _ => Err(format!("unknown property {id}")),
     }
